@@ -713,6 +713,7 @@ class MeanFieldTempoBackend():
         self._step = None
         self._propagators_list = propagators_list
         self._degeneracy_map_list = degeneracy_maps_list
+        self._pending_state_list = None
         # List of BaseTempoBackends use to calculate each system dynamics
         self._backend_list = [BaseTempoBackend(initial_state,
                          influence,
@@ -751,23 +752,30 @@ class MeanFieldTempoBackend():
         next_step = current_step + 1
         current_state_list = deepcopy(self._state_list)
         current_field = self._field
-        current_field_derivative = self._compute_field_derivative(
-            current_step, current_state_list, current_field)
-        # N.B. propagators use current_field & current_field_derivative
-        # this is how field dependence enters in each system dynamics
-        prop_tuple_list = [
-            propagators(current_step, current_field, current_field_derivative) \
-                for propagators, state in \
-                    zip(self._propagators_list, current_state_list)]
-        # Use tempo tensor network to compute each system state
-        next_state_list = [
-            backend.compute_system_step(next_step, *prop_tuple) \
-                for backend, prop_tuple in \
-                    zip(self._backend_list, prop_tuple_list)]
+        if self._pending_state_list is None:
+            current_field_derivative = self._compute_field_derivative(
+                current_step, current_state_list, current_field)
+            # N.B. propagators use current_field & current_field_derivative
+            # this is how field dependence enters in each system dynamics
+            prop_tuple_list = [
+                propagators(current_step, current_field,
+                            current_field_derivative) \
+                    for propagators, state in \
+                        zip(self._propagators_list, current_state_list)]
+            # Use tempo tensor network to compute each system state.
+            # The networks are advanced exactly once per step: the result
+            # is kept until the step is completed, such that the step can
+            # be repeated if the field evolution below fails.
+            self._pending_state_list = [
+                backend.compute_system_step(next_step, *prop_tuple) \
+                    for backend, prop_tuple in \
+                        zip(self._backend_list, prop_tuple_list)]
+        next_state_list = self._pending_state_list
         # Use field evolution function to compute next field
         next_field = self._compute_field(current_step,
                                          current_state_list, current_field,
                                          next_state_list)
+        self._pending_state_list = None
         self._state_list = next_state_list
         self._field = next_field
         self._step = next_step
